@@ -1,7 +1,8 @@
-(* C19 proofs, part 5: concrete witnesses against the full statement (each one was
-   reproduced on the real Filer by harness/cmd/c19) and non-vacuity examples. *)
+(* C19 proofs, part 5: the remaining concrete witness against the full statement
+   (reproduced on the real Filer by harness/cmd/c19), the former witnesses (now
+   repaired: they satisfy the statement) and non-vacuity examples. *)
 From Coq Require Import List NArith Bool String Ascii Arith Lia.
-From SW Require Import model.Listing proof.ListingBase proof.ListingStore proof.ListingPattern proof.ListingProofs.
+From SW Require Import model.Listing proof.ListingBase proof.ListingStore proof.ListingScan proof.ListingPattern proof.ListingProofs.
 Import ListNotations.
 Local Open Scope string_scope.
 Local Open Scope list_scope.
@@ -11,154 +12,89 @@ Definition live_dir (names : list string) : dirst := map (fun n => (n, false)) n
 
 Ltac wf_by_compute := apply wfb_wf; vm_compute; reflexivity.
 Ltac conj_compute := repeat (match goal with |- _ /\ _ => split end); vm_compute; reflexivity.
-Ltac refute_exact :=
-  let names := fresh "names" in let more := fresh "more" in let r := fresh "r" in
-  let H := fresh "H" in let Hn := fresh "Hn" in let Hm := fresh "Hm" in
-  intros [names [more [r [H [Hn Hm]]]]]; vm_compute in H;
-  first [discriminate H
-        | (let H1 := fresh "H1" in let H2 := fresh "H2" in let H3 := fresh "H3" in
-           injection H as H1 H2 H3; rewrite <- H1 in Hn; rewrite <- H2 in Hm;
-           vm_compute in Hn; vm_compute in Hm; first [discriminate Hn | discriminate Hm])].
 
-(* k = 0: a pattern without wildcard is dropped: everything is listed *)
-Lemma refuted_nowild :
-  let d := live_dir ["a"; "ab"; "b"] in
-  wf d /\ trig_nowild "ab" = true /\ run_trigger Lvl d "" false 10 "" "ab" "" = false /\
-  list_entries Lvl d "" false 10 "" "ab" "" <> None /\
-  ~ exact_at Lvl d "" false 10 "" "ab" "".
-Proof.
-  cbv zeta. split; [wf_by_compute|]. split; [reflexivity|]. split; [vm_compute; reflexivity|].
-  split; [vm_compute; discriminate|]. refute_exact.
-Qed.
-
-(* k = 1: '?' before the first '*' becomes part of a literal prefix *)
-Lemma refuted_qprefix :
-  let d := live_dir ["ab"; "abc"; "bb"] in
-  wf d /\ trig_qprefix "?b*" = true /\ trig_nowild "?b*" = false /\
-  run_trigger Lvl d "" false 10 "" "?b*" "" = false /\
-  spec_names d "" false "" "?b*" "" = ["ab"; "abc"; "bb"] /\
-  ~ exact_at Lvl d "" false 10 "" "?b*" "".
-Proof.
-  cbv zeta. split; [wf_by_compute|]. repeat (split; [vm_compute; reflexivity|]). refute_exact.
-Qed.
-
-(* k = 2: leveldb stores, start name below the prefix range: empty page *)
-Lemma refuted_start_below_prefix :
-  let d := live_dir ["a"; "b"] in
-  wf d /\ pat_trigger "b" "" = false /\ lvl_below d "a" "b" = true /\
-  spec_names d "a" false "b" "" "" = ["b"] /\
-  ~ exact_at Lvl d "a" false 10 "b" "" "" /\
-  exact_at Gen d "a" false 10 "b" "" "".
-Proof.
-  cbv zeta. split; [wf_by_compute|]. repeat (split; [vm_compute; reflexivity|]). split; [refute_exact|].
-  eexists _, _, _. split; [vm_compute; reflexivity|]. split; vm_compute; reflexivity.
-Qed.
-
-(* k = 3: generic path (stores without native prefix listing): the re-query inside
-   prefixFilterEntries always restarts from the first batch's last name *)
-Lemma refuted_generic_hang :
-  let d := live_dir ["a"; "b"; "c"; "d"] in
-  wf d /\ pat_trigger "d" "" = false /\
-  list_entries Gen d "" false 0 "d" "" "" = None /\
-  ~ exact_at Gen d "" false 0 "d" "" "" /\
-  exact_at Lvl d "" false 0 "d" "" "".
-Proof.
-  cbv zeta. split; [wf_by_compute|]. repeat (split; [vm_compute; reflexivity|]). split; [refute_exact|].
-  eexists _, _, _. split; [vm_compute; reflexivity|]. split; vm_compute; reflexivity.
-Qed.
-
-(* ... and that None is a real divergence of the loop, whatever the fuel *)
-Lemma generic_hang_diverges :
-  let d := live_dir ["a"; "b"; "c"; "d"] in
-  forall fuel, pf_loop fuel d 1 "d" (last_name (mem_list d "" false 1)) 0 (mem_list d "" false 1) [] false = None.
-Proof.
-  cbv zeta. intros fuel. destruct fuel as [|f]; [reflexivity|].
-  rewrite pf_loop_S.
-  change (pf_loop f (live_dir ["a"; "b"; "c"; "d"]) 1 "d" "a" 0 [("b", false)] [] true = None).
-  apply pf_loop_stuck; try reflexivity. discriminate.
-Qed.
-
-Lemma refuted_generic_dup :
-  let d := [("a", false); ("b", true); ("b0", true); ("ba", false); ("bb", false)] in
-  wf d /\ pat_trigger "b" "" = false /\
-  (exists more r, list_entries Gen d "" false 3 "b" "" "" = Some (["ba"; "bb"; "bb"], more, r) /\ r_flag r = true) /\
-  spec_names d "" false "b" "" "" = ["ba"; "bb"] /\
-  ~ exact_at Gen d "" false 3 "b" "" "".
-Proof.
-  cbv zeta. split; [wf_by_compute|]. split; [vm_compute; reflexivity|].
-  split; [eexists _, _; split; vm_compute; reflexivity|]. split; [vm_compute; reflexivity|]. refute_exact.
-Qed.
-
-(* k = 4: a refill that finds nothing resets lastFileName to "": the next refill starts over *)
-Lemma refuted_restart :
-  let d := [("a", false); ("b", false); ("c", true)] in
-  wf d /\ pat_trigger "" "*a" = false /\
-  (exists more r, list_entries Lvl d "" false 2 "" "*a" "" = Some (["a"; "a"], more, r) /\
-                  r_flag r = false /\ r_restart r = true) /\
-  spec_names d "" false "" "*a" "" = ["a"] /\
-  ~ exact_at Lvl d "" false 2 "" "*a" "" /\ ~ exact_at Gen d "" false 2 "" "*a" "".
-Proof.
-  cbv zeta. split; [wf_by_compute|]. split; [vm_compute; reflexivity|].
-  split; [eexists _, _; split; [|split]; vm_compute; reflexivity|]. split; [vm_compute; reflexivity|].
-  split; refute_exact.
-Qed.
-
-(* k = 5: prefix and pattern together (the code comment calls them mutually exclusive) *)
+(* k = 0: prefix and pattern together (the code comment calls them mutually exclusive):
+   the pattern's literal prefix replaces the requested prefix *)
 Lemma refuted_prefix_and_pattern :
   let d := live_dir ["a"; "ab"; "b"] in
-  wf d /\ trig_both "b" "a*" = true /\ trig_nowild "a*" = false /\ trig_qprefix "a*" = false /\
-  run_trigger Lvl d "" false 10 "b" "a*" "" = false /\
+  wf d /\ trig_both "b" "a*" = true /\
+  (exists r, list_entries Lvl d "" false 10 "b" "a*" "" = Some (["a"; "ab"], false, r)) /\
+  (exists r, list_entries Gen d "" false 10 "b" "a*" "" = Some (["a"; "ab"], false, r)) /\
   spec_names d "" false "b" "a*" "" = [] /\
-  ~ exact_at Lvl d "" false 10 "b" "a*" "".
+  ~ exact_at Lvl d "" false 10 "b" "a*" "" /\ ~ exact_at Gen d "" false 10 "b" "a*" "".
 Proof.
-  cbv zeta. split; [wf_by_compute|]. repeat (split; [vm_compute; reflexivity|]). refute_exact.
+  cbv zeta. split; [wf_by_compute|]. split; [reflexivity|].
+  split; [eexists; vm_compute; reflexivity|]. split; [eexists; vm_compute; reflexivity|].
+  split; [vm_compute; reflexivity|].
+  split; intros [names [more [r [H [Hn _]]]]]; vm_compute in H; injection H as H1 H2 H3;
+    rewrite <- H1 in Hn; vm_compute in Hn; discriminate Hn.
 Qed.
 
-(* following the last returned name: a duplicate *)
-Lemma refuted_paginate :
-  let d := [("a", false); ("b", false); ("c", true)] in
-  wf d /\ pat_trigger "" "*a" = false /\
-  paginate 10 Lvl d "" false 2 "" "*a" "" = Some ([["a"; "a"]], false, true) /\
-  spec_names d "" false "" "*a" "" = ["a"].
-Proof. cbv zeta. split; [wf_by_compute|]. conj_compute. Qed.
+(* ... also when the pattern has no literal prefix: the rest pattern is then matched against
+   the name WITHOUT the requested prefix *)
+Lemma refuted_prefix_and_pattern_rest :
+  let d := live_dir ["a"; "ab"; "b"] in
+  wf d /\ trig_both "a" "?b" = true /\
+  (exists r, list_entries Lvl d "" false 10 "a" "?b" "" = Some ([], false, r)) /\
+  spec_names d "" false "a" "?b" "" = ["ab"] /\
+  ~ exact_at Lvl d "" false 10 "a" "?b" "".
+Proof.
+  cbv zeta. split; [wf_by_compute|]. split; [reflexivity|].
+  split; [eexists; vm_compute; reflexivity|]. split; [vm_compute; reflexivity|].
+  intros [names [more [r [H [Hn _]]]]]. vm_compute in H. injection H as H1 H2 H3.
+  rewrite <- H1 in Hn. vm_compute in Hn. discriminate Hn.
+Qed.
 
-(* the gRPC server's loop: lastFileName comes back "" although an entry was returned *)
-Lemma refuted_paginate_stream :
-  let d := [("a", false); ("b", true)] in
-  wf d /\
-  paginate_stream 10 Lvl d "" false 3 "" = Some ([["a"]; ["a"]], false, true) /\
-  paginate_stream 10 Gen d "" false 3 "" = Some ([["a"]; ["a"]], false, true) /\
-  spec_names d "" false "" "" "" = ["a"].
-Proof. cbv zeta. split; [wf_by_compute|]. conj_compute. Qed.
+(* ---- the former witnesses, after the repairs ---- *)
+Example repaired_witnesses :
+  (* pattern without wildcard *)
+  (exists r, list_entries Lvl (live_dir ["a"; "ab"; "b"]) "" false 10 "" "ab" "" = Some (["ab"], false, r)) /\
+  (* '?' before the first '*' *)
+  (exists r, list_entries Lvl (live_dir ["ab"; "abc"; "bb"]) "" false 10 "" "?b*" "" = Some (["ab"; "abc"; "bb"], false, r)) /\
+  (* leveldb, start below the prefix range *)
+  (exists r, list_entries Lvl (live_dir ["a"; "b"]) "a" false 10 "b" "" "" = Some (["b"], false, r)) /\
+  (* generic path: terminates, no duplicates *)
+  (exists r, list_entries Gen (live_dir ["a"; "b"; "c"; "d"]) "" false 0 "d" "" "" = Some ([], true, r)) /\
+  (exists r, list_entries Gen [("a", false); ("b", true); ("b0", true); ("ba", false); ("bb", false)] "" false 3 "b" "" ""
+             = Some (["ba"; "bb"], false, r)) /\
+  (* refill that finds nothing *)
+  (exists r, list_entries Lvl [("a", false); ("b", false); ("c", true)] "" false 2 "" "*a" "" = Some (["a"], false, r)) /\
+  paginate_stream 10 Lvl [("a", false); ("b", true)] "" false 3 "" = Some [["a"]].
+Proof.
+  repeat (match goal with |- _ /\ _ => split end);
+    first [vm_compute; reflexivity | eexists; vm_compute; reflexivity].
+Qed.
 
-(* ---- non-vacuity: the hypotheses of the partial theorems hold on non-trivial inputs ---- *)
+(* ---- non-vacuity ---- *)
 Definition ex_dir : dirst :=
   [("a", false); ("a b", true); ("ab", false); ("abc", true); ("b", false); ("b0", true); ("ba", false); ("c", false)].
 
 Example exact_example :
   wf ex_dir /\
-  pat_trigger "" "a*" = false /\ run_trigger Lvl ex_dir "a" false 1 "" "a*" "" = false /\
-  (exists r, list_entries Lvl ex_dir "a" false 1 "" "a*" "" = Some (["ab"], false, r) /\
+  trig_both "" "a*" = false /\
+  (exists r, list_entries Lvl ex_dir "a" false 1 "" "a*" "*c" = Some (["ab"], false, r) /\
+             map ename (r_dir r) = ["a"; "ab"; "b"; "b0"; "ba"; "c"]) /\
+  (exists r, list_entries Gen ex_dir "a" false 1 "" "a*" "*c" = Some (["ab"], false, r) /\
              map ename (r_dir r) = ["a"; "ab"; "b"; "b0"; "ba"; "c"]) /\
   (* expired entries interleaved, page still full *)
-  pat_trigger "b" "" = false /\ run_trigger Lvl ex_dir "" false 2 "b" "" "" = false /\
-  (exists r, list_entries Lvl ex_dir "" false 2 "b" "" "" = Some (["b"; "ba"], false, r)).
+  (exists r, list_entries Lvl ex_dir "" false 2 "b" "" "" = Some (["b"; "ba"], false, r)) /\
+  (exists r, list_entries Gen ex_dir "" false 1 "b" "" "" = Some (["b"], true, r)).
 Proof.
-  split; [wf_by_compute|].
-  split; [vm_compute; reflexivity|]. split; [vm_compute; reflexivity|].
+  split; [wf_by_compute|]. split; [reflexivity|].
   split; [eexists; split; vm_compute; reflexivity|].
-  split; [vm_compute; reflexivity|]. split; [vm_compute; reflexivity|].
-  eexists. vm_compute. reflexivity.
+  split; [eexists; split; vm_compute; reflexivity|].
+  split; eexists; vm_compute; reflexivity.
 Qed.
 
 Example paginate_example :
-  paginate 10 Lvl ex_dir "" false 2 "" "" "a*" = Some ([["b"; "ba"]; ["c"]], false, false) /\
-  paginate 10 Gen ex_dir "" false 2 "" "" "a*" = Some ([["b"; "ba"]; ["c"]], false, false) /\
-  paginate_stream 10 Lvl ex_dir "" false 2 "" = Some ([["a"; "ab"]; ["b"; "ba"]; ["c"]], false, false) /\
+  paginate 10 Lvl ex_dir "" false 2 "" "" "a*" = Some [["b"; "ba"]; ["c"]] /\
+  paginate 10 Gen ex_dir "" false 2 "" "" "a*" = Some [["b"; "ba"]; ["c"]] /\
+  paginate_stream 10 Lvl ex_dir "" false 2 "" = Some [["a"; "ab"]; ["b"; "ba"]; ["c"]] /\
+  paginate_stream 10 Gen ex_dir "" false 2 "a" = Some [["a"; "ab"]] /\
   spec_names ex_dir "" false "" "" "a*" = ["b"; "ba"; "c"].
 Proof. conj_compute. Qed.
 
 Example refill_example :
-  exists r, list_valid Lvl ex_dir "" true 3 "a" = Some r /\ r_flag r = false /\
+  exists r, list_valid Lvl ex_dir "" true 3 "a" = Some r /\
             r_names r = ["a"; "ab"] /\ map ename (r_dir r) = ["a"; "ab"; "b"; "b0"; "ba"; "c"].
 Proof. eexists. conj_compute. Qed.
